@@ -287,14 +287,15 @@ pub fn run_rejected(ex: &mut Executor, spec: &ExecSpec, label: &str) -> TrialOut
         );
         return out;
     }
-    if !r.stdout.is_empty() || r.out_file.is_some() || r.stats_file.is_some() {
+    if !r.stdout.is_empty() || r.out_file.is_some() || r.stats_file.is_some() || !r.cwd_files.is_empty() {
         out.fail = fail(
             "output-before-rejection",
             format!(
-                "rejected command line still produced output: stdout {} bytes, -o file {:?}, stats file {:?} [cmd: {}]",
+                "rejected command line still produced output: stdout {} bytes, -o file {:?}, stats file {:?}, files left in the current directory {:?} [cmd: {}]",
                 r.stdout.len(),
                 r.out_file.as_ref().map(|b| b.len()),
                 r.stats_file.as_ref().map(|b| b.len()),
+                r.cwd_files,
                 spec.cmdline()
             ),
         );
